@@ -47,7 +47,35 @@ type lcase struct {
 	Swap bool `json:"swap,omitempty"`
 }
 
+// periodicPair: Left = c^run b g1..g_gap x, Right = c^(run-1) b g1..g_gap y - one line of
+// a run of equal lines is dropped, then gap unchanged lines, then another change.
+func periodicPair(run, gap int) (alpha []string, L, R []int) {
+	alpha = []string{"c", "b", "x", "y", "g1", "g2", "g3"}
+	for i := 0; i < run; i++ {
+		L = append(L, 0)
+		if i > 0 {
+			R = append(R, 0)
+		}
+	}
+	L, R = append(L, 1), append(R, 1)
+	for g := 0; g < gap; g++ {
+		L, R = append(L, 4+g), append(R, 4+g)
+	}
+	return alpha, append(L, 2), append(R, 3)
+}
+
 func checkLongCase(l lcase) *mc.Failure {
+	if l.N < 0 {
+		al, L, R := periodicPair(-l.N, l.Gap)
+		if l.Swap {
+			L, R = R, L
+		}
+		f := check(tcase{L, R, l.Ctx, al})
+		if f != nil {
+			f.Msg = fmt.Sprintf("a run of %d equal lines with one dropped, %d unchanged lines, another change (swap=%v): %s", -l.N, l.Gap, l.Swap, f.Msg)
+		}
+		return f
+	}
 	al, L, R := mdiffh.LongPair(l.N, l.Gap)
 	if l.Swap {
 		L, R = R, L
@@ -319,6 +347,15 @@ func main() {
 				for gap := 0; gap <= 11; gap++ {
 					for _, ctx := range []int{0, 1, 2, 3, 4, 5, 6, 8, 13, n} {
 						cases = append(cases, lcase{n, gap, ctx, false}, lcase{n, gap, ctx, true})
+					}
+				}
+			}
+			// runs of equal lines: a backward context scan can then match lines inside the
+			// previous chunk, several of them when the run is long (periodic inputs)
+			for run := 2; run <= 9; run++ {
+				for gap := 0; gap <= 3; gap++ {
+					for ctx := 0; ctx <= run+gap+3; ctx++ {
+						cases = append(cases, lcase{N: -run, Gap: gap, Ctx: ctx}, lcase{N: -run, Gap: gap, Ctx: ctx, Swap: true})
 					}
 				}
 			}
